@@ -48,7 +48,10 @@ CMPOPS = ['=', '<>', '<', '<=', '>', '>=']
 UNOPS = ['neg', 'pct']
 
 NUMBERS = [0, 1, -1, 2, 3, 255, 1000000, 0.5, -2.5, 0.1, 1.25, 3.0, -0.75,
-           64, 1e-3]
+           64, 1e-3,
+           # neighbouring doubles: different numbers that print alike
+           0.3, 0.30000000000000004, 3.3, 3.3000000000000003,
+           1.0000000000000002]
 NUMTEXT = ['1', '-2.5', '1e2', '0', '3.0', '.5', '+7']
 TEXT = ['', 'a', 'A', 'abc', 'ABC', 'b', 'é', 'É', '日本', '*', '?', 'a b',
         'Z', '#bad']
@@ -134,6 +137,12 @@ def expected(op, a, b):
         if not (text_order_clear(a) and text_order_clear(b)):
             if op in ('=', '<>') and klass(a) != klass(b):
                 return op == '<>'
+            return CLOSURE_ONLY
+        if klass(a) == klass(b) == 'number' and a != b and \
+                '%.15g' % a == '%.15g' % b:
+            # neighbouring doubles: Excel itself calls them equal (15
+            # significant digits); the statement only demands ONE order, which
+            # the trichotomy / complement laws check
             return CLOSURE_ONLY
         ka, kb = cmp_key(a), cmp_key(b)
         return {'=': ka == kb, '<>': ka != kb, '<': ka < kb, '<=': ka <= kb,
